@@ -307,6 +307,14 @@ theorem refinement_history_txn (h : List (Nat × List (Nat × List Ent))) (hinc 
 /-- a batch is the transaction with one part. -/
 theorem batch_is_txn (db : DB) (ds t : Nat) (b : List Ent) : execTxn db t [(ds, b)] = storeBatch db ds t b := rfl
 
+open Hub.Facts.Layout in
+/-- tie of `txn_refinement`'s premises to the Go source: a transaction request is a *map* from dataset name to entities (one part
+per dataset — the `Nodup` hypothesis), `ExecuteTransaction` opens one badger transaction and hands it, with one commit time, to
+every part's write loop (the parts share one read snapshot and one instant). -/
+theorem facts_txn_shape :
+    txnPartsType = "map[string][]*Entity" ∧ txnWriteArgs = ["entities, txnTime, txn"]
+    ∧ txnSnapshots = ["s.database.NewTransaction"] := by decide
+
 -- non-vacuity: a transaction over two datasets after a batch; the second part reads the pre-transaction snapshot
 open Hub.TxnRefine in
 example : let e : Ent := ⟨1, false, [], "a", []⟩; let d : Ent := ⟨1, true, [], "a", []⟩
